@@ -22,6 +22,7 @@ package compiler
 //@   trusted
 //@   ensures result == inclname(t.Name)
 //@ func parser.Type.ParamName(t)
+//@   locals name
 //@   trusted
 //@   ensures result == paramname(t.Name)
 //@ pred tdowner(f, t) = ite(inclname(t.Name) == "", f, f.ParsedIncludes[inclname(t.Name)])
@@ -29,6 +30,7 @@ package compiler
 //@ define und(f, t) = ite(tdhas(f, t), und(tdowner(f, t), tdowner(f, t).typedefIndex[paramname(t.Name)].Type), t)
 //@ define tdwf(f) = f != nil && forallkey(k, has(f.typedefIndex, k) ==> f.typedefIndex[k] != nil && f.typedefIndex[k].Type != nil) && forallkey(i, has(f.ParsedIncludes, i) ==> tdwf(f.ParsedIncludes[i]))
 //@ func parser.Frugal.UnderlyingType(f, t)
+//@   locals owner, typedefIndex, include, parsed, ok, typedef, ok
 //@   requires t != nil && tdwf(f)
 //@   decreases tree(t)
 //@   ensures result == und(f, t) && result != nil
@@ -37,12 +39,15 @@ package compiler
 //@ specfn isprim(Str) Bool
 //@ specfn iscont(Str) Bool
 //@ func parser.Type.IsPrimitive(t)
+//@   locals ok
 //@   trusted
 //@   ensures result == isprim(t.Name)
 //@ func parser.Type.IsContainer(t)
+//@   locals ok
 //@   trusted
 //@   ensures result == iscont(t.Name)
 //@ func parser.Frugal.isValidType(f, typ)
+//@   locals frugal, includeName, paramName, frugalInclude, ok, s, rangeindex, union, rangeindex, exception, rangeindex, enum, rangeindex, typedef, rangeindex
 //@   decreases tree(typ)
 //@   ensures !isprim(typ.Name) && !iscont(typ.Name) && inclname(typ.Name) != "" && !has(f.ParsedIncludes, inclname(typ.Name)) ==> !result
 // cyc(f, t, E): expanding t the way UnderlyingType and the emitters do (into container element types and
@@ -54,6 +59,7 @@ package compiler
 //@ pred setlike(m) = forallref(k, has(m, k) ==> m[k])
 //@ define cyc(f, t, E) = t != nil && (cyc(f, t.KeyType, E) || cyc(f, t.ValueType, E) || (tdhas(f, t) && (member(E, tdof(f, t)) || cyc(tdowner(f, t), tdof(f, t).Type, setadd(E, tdof(f, t))))))
 //@ func parser.Frugal.typedefCycle(f, t, expanding)
+//@   locals owner, typedefIndex, include, parsed, ok, typedef, ok
 //@   requires expanding != nil && setlike(expanding)
 //@   decreases tree(t)
 //@   ensures result == cyc(f, t, old(dom(expanding)))
@@ -62,75 +68,105 @@ package compiler
 //@ func parser.Type.String(t)
 //@   decreases tree(t)
 //@ func parser.addInclude(includesSet, includes, t, frugal)
+//@   locals err, includeName, include, ok
 //@   decreases tree(t)
 //@ func parser.getImports(t)
+//@   locals list, slicelit, imp, rangeindex, imp, rangeindex, imp, rangeindex, imp, rangeindex
 //@   decreases tree(t)
 //@ func parser.parseFrugal(filePath, visitedIncludes, cache)
+//@   locals file, err, name, cached, ok, parsed, frugal, incl, rangeindex, include, err, parsedIncl, err, includeBase, includeName
 //@   decreases visited(visitedIncludes)
 
 //@ func compiler.generateFrugalRec(f, g, lang)
+//@   locals ok, out, fullOut, err, err, include, rangeindex, vendored, inclFrugal, err
 //@   decreases visited(globals.CompiledFiles)
 
 //@ func html.displayType(typ, module)
 //@   decreases tree(typ)
 //@ func html.formatValue(value, module)
+//@   locals v, v, idCtx, v, display, prefix, keyValue, rangeindex, v, display, prefix, rangeindex, v
 //@   decreases tree(value)
 //@ func html.transitiveIncludesRec(module, modules, seen)
+//@   locals include, rangeindex, included, ok
 //@   decreases tree(module)
 //@ func json.collectFrugals(pf, frugals, used)
+//@   locals ok, include, rangeindex, inclFrugal
 //@   decreases visited(used)
 //@ func json.toRawType(pt)
+//@   locals ok
 //@   decreases tree(pt)
 //@ func json.toType(pt)
+//@   locals t, pa, rangeindex
 //@   decreases tree(pt)
 
 //@ func golang.Generator.generateConstantValue(g, t, value)
+//@   locals identifier, ok, idCtx, underlyingType, include, namespace, include, namespace, contents, v, rangeindex, contents, v, rangeindex, val, contents, pair, rangeindex, val, key, val, s, packageName, goUnderlyingType, lastInd, contents, pair, rangeindex, name, field, rangeindex, val
 //@   decreases tree(value)
 //@ func golang.Generator.generateReadFieldRec(g, field, first)
+//@   locals eq, prefix, fName, contents, isPointerField, underlyingType, goOrigType, goUnderlyingType, isEnum, thriftType, cast, maybeAddress, lastInd, initializer, maybePointer, valElem, valField, valContents, valElem, valField, valContents, keyElem, keyField, valElem, valField, valContents
 //@   decreases tree(field)
 //@ func golang.Generator.generateWriteFieldRec(g, field, prefix)
+//@   locals underlyingType, isPointerField, fName, contents, isEnum, write, valEnumType, valField, keyEnumType, keyField
 //@   decreases tree(field)
 //@ func golang.Generator.getGoTypeFromThriftTypePtr(g, t, pointer)
+//@   locals maybePointer, name
 //@   decreases tree(t)
 
 //@ func java.Generator._getJavaType(g, t, parametrized)
+//@   locals underlyingType
 //@   decreases tree(t)
 //@ func java.Generator.getJavaTypeFromThriftType(g, t)
+//@   locals javaType
 //@   decreases tree(t)
 //@ func java.Generator.generateConstantValueRec(g, t, value, indent)
+//@   locals underlyingType, identifier, ok, idCtx, include, namespace, include, namespace, elem, preamble
 //@   decreases tree(value)
 //@ func java.Generator.generateConstantValueWrapper(g, fieldName, t, value, declare, needsStatic, indent)
+//@   locals underlyingType, contents, val, s, ind, pair, rangeindex, name, field, rangeindex, preamble, val, ind, ind, v, rangeindex, preamble, val, ind, v, rangeindex, preamble, val, pair, rangeindex, preamble, key, val
 //@   decreases tree(value)
 //@ func java.Generator.generateCopyConstructorField(g, field, otherFieldName, first, indent)
+//@   locals underlyingType, isPrimitive, accessPrefix, declPrefix, contents, valueType, containerValType, otherValElem, thisValElem, thisValField, keyType, keyUnderlying, valUnderlying, containerKeyType, thisKeyElem, thisKeyField
 //@   decreases tree(field)
 //@ func java.Generator.generateReadFieldRec(g, field, first, succinct, containerTypes, indent)
+//@   locals contents, declPrefix, accessPrefix, javaType, underlyingType, thriftType, containerElem, counterElem, valType, valElem, valField, valContents, valTType, keyTType, keyType, keyElem, keyField
 //@   decreases tree(field)
 //@ func java.Generator.generateWriteFieldRec(g, field, first, succinct, indent)
+//@   locals contents, accessPrefix, underlyingType, isEnum, elem, val, write, iterElem, valJavaType, valTType, iterField, keyJavaType, keyTType, iterField, keyField, valField
 //@   decreases tree(field)
 
 //@ func dartlang.Generator.generateConstantValue(g, t, value, ind, asConst)
+//@   locals result, isConst, underlyingType, identifier, ok, idCtx, include, namespace, include, namespace, nsLibName, i, top, bottom, contents, valuesConst, contents, kvsConst, pair, rangeindex, v, rangeindex, val, valConst, key, keyConst, val, valConst, s, contents, dartType, pair, rangeindex, name, field, rangeindex, val
 //@   decreases tree(value)
 //@ func dartlang.Generator.generateReadFieldRec(g, field, kind, first, ind)
+//@   locals contents, prefix, dartType, fName, underlyingType, primitive, thriftType, valElem, containerElem, valElem, valField, valContents, counterElem, dartType, initializer, underlyingNameWithCapitalType, localVar, keyElem, keyField
 //@   decreases tree(field)
 //@ func dartlang.Generator.generateWriteFieldRec(g, field, first, ind)
+//@   locals contents, fName, thisPrefix, underlyingType, write, valEnumType, localVar, valElem, valField, valElem, valField, keyEnumType, keyField, valField
 //@   decreases tree(field)
 //@ func dartlang.Generator.getDartTypeFromThriftType(g, t)
+//@   locals underlyingType
 //@   decreases tree(t)
 
 //@ func python.Generator.generateConstantValue(g, t, value, ind)
+//@   locals identifier, ok, idCtx, underlyingType, include, include, contents, contents, pair, rangeindex, v, rangeindex, val, key, val, s, contents, pair, rangeindex, name, field, rangeindex, val
 //@   decreases tree(value)
 //@ func python.Generator.generateReadFieldRec(g, field, first, ind)
+//@   locals contents, prefix, underlyingType, isEnum, thriftType, sizeElem, valElem, valField, keyElem, keyField
 //@   decreases tree(field)
 //@ func python.Generator.generateWriteFieldRec(g, field, first, ind)
+//@   locals contents, prefix, underlyingType, isEnum, thriftType, valElem, valField, valTType, keyElem, keyField, keyTType
 //@   decreases tree(field)
 //@ func python.Generator.generateSpecArgs(g, t)
+//@   locals underlyingType, qualifiedName
 //@   decreases tree(t)
 //@ func python.Generator.getPythonTypeName(g, t)
+//@   locals typ, typ
 //@   decreases tree(t)
 
 // Validation is what makes TDEF descent well-founded: every alias of the file is checked for a cyclic
 // definition, and a cyclic one is an error.
 //@ func parser.Frugal.validateTypedefs(f)
+//@   locals typedef, rangeindex
 //@   ensures lastcallret("parser.Frugal.typedefCycle", 0) ==> result != nil
 //@   modifies *
 
@@ -155,6 +191,7 @@ package compiler
 //@ immutable parser.Auditor.logger, parser.Auditor.oldFrugal, parser.Auditor.newFrugal
 
 //@ func parser.Auditor.checkType(a, oldType, newType, warn, context)
+//@   locals logMismatch, underlyingOldType, underlyingNewType
 //@   requires a.logger != nil && tdwf(a.oldFrugal) && tdwf(a.newFrugal)
 //@   decreases tree(oldType)
 //@   ensures flag(a) == (old(flag(a)) || (!warn && tdiff(a, oldType, newType)))
@@ -164,21 +201,25 @@ package compiler
 // assumption, the string manipulation itself is not verified.
 //@ specfn normprefix(Str) Str
 //@ func parser.normalizeScopePrefix(s)
+//@   locals separated, idx, piece, rangeindex
 //@   trusted
 //@   ensures result == normprefix(s)
 //@ func parser.Auditor.checkScopePrefix(a, oldPrefix, newPrefix, context)
+//@   locals oldNorm
 //@   requires a.logger != nil && tdwf(a.oldFrugal) && tdwf(a.newFrugal)
 //@   ensures flag(a) == (old(flag(a)) || normprefix(oldPrefix.String) != normprefix(newPrefix.String))
 //@   modifies ghost(errflag, a.logger), alloc
 
 // Checkers that may only warn never set the flag.
 //@ func parser.Auditor.checkNamespaces(a, oldNamespace, newNamespace)
+//@   locals namespace, rangeindex, rangeindex, ok
 //@   requires a.logger != nil && tdwf(a.oldFrugal) && tdwf(a.newFrugal)
 //@   ensures flag(a) == old(flag(a))
 //@   modifies ghost(errflag, a.logger), alloc
 //@   loop 0 invariant a == a0 && newMap != nil
 //@   loop 1 invariant a == a0 && flag(a) == old(flag(a))
 //@ func parser.Auditor.checkConstants(a, oldConstants, newConstants)
+//@   locals constant, rangeindex, oldConstant, rangeindex, ok, context
 //@   requires a.logger != nil && tdwf(a.oldFrugal) && tdwf(a.newFrugal)
 //@   ensures flag(a) == old(flag(a))
 //@   modifies ghost(errflag, a.logger), alloc
@@ -187,48 +228,56 @@ package compiler
 
 // Monotone checkers (the flag is never cleared); what sets it is decided per iteration.
 //@ func parser.Auditor.checkScopes(a, oldScopes, newScopes)
+//@   locals scope, rangeindex, oldScope, rangeindex, ok, context
 //@   requires a.logger != nil && tdwf(a.oldFrugal) && tdwf(a.newFrugal)
 //@   ensures old(flag(a)) ==> flag(a)
 //@   modifies ghost(errflag, a.logger), alloc
 //@   loop 0 invariant a == a0 && newMap != nil
 //@   loop 1 invariant a == a0 && (old(flag(a)) ==> flag(a))
 //@ func parser.Auditor.checkOperations(a, oldOps, newOps, context)
+//@   locals op, rangeindex, oldOp, rangeindex, ok, opContext
 //@   requires a.logger != nil && tdwf(a.oldFrugal) && tdwf(a.newFrugal)
 //@   ensures old(flag(a)) ==> flag(a)
 //@   modifies ghost(errflag, a.logger), alloc
 //@   loop 0 invariant a == a0 && newMap != nil
 //@   loop 1 invariant a == a0 && (old(flag(a)) ==> flag(a))
 //@ func parser.Auditor.checkEnums(a, oldEnums, newEnums)
+//@   locals enum, rangeindex, oldEnum, rangeindex, ok, context
 //@   requires a.logger != nil && tdwf(a.oldFrugal) && tdwf(a.newFrugal)
 //@   ensures old(flag(a)) ==> flag(a)
 //@   modifies ghost(errflag, a.logger), alloc
 //@   loop 0 invariant a == a0 && newMap != nil
 //@   loop 1 invariant a == a0 && (old(flag(a)) ==> flag(a))
 //@ func parser.Auditor.checkEnumValues(a, oldValues, newValues, context)
+//@   locals value, rangeindex, oldValue, rangeindex, ok
 //@   requires a.logger != nil && tdwf(a.oldFrugal) && tdwf(a.newFrugal)
 //@   ensures old(flag(a)) ==> flag(a)
 //@   modifies ghost(errflag, a.logger), alloc
 //@   loop 0 invariant a == a0 && newMap != nil
 //@   loop 1 invariant a == a0 && (old(flag(a)) ==> flag(a))
 //@ func parser.Auditor.checkStructLike(a, oldStructs, newStructs)
+//@   locals s, rangeindex, oldStruct, rangeindex, ok, context
 //@   requires a.logger != nil && tdwf(a.oldFrugal) && tdwf(a.newFrugal)
 //@   ensures old(flag(a)) ==> flag(a)
 //@   modifies ghost(errflag, a.logger), alloc
 //@   loop 0 invariant a == a0 && newMap != nil
 //@   loop 1 invariant a == a0 && (old(flag(a)) ==> flag(a))
 //@ func parser.Auditor.checkServices(a, oldServices, newServices)
+//@   locals service, rangeindex, oldService, rangeindex, ok, context
 //@   requires a.logger != nil && tdwf(a.oldFrugal) && tdwf(a.newFrugal)
 //@   ensures old(flag(a)) ==> flag(a)
 //@   modifies ghost(errflag, a.logger), alloc
 //@   loop 0 invariant a == a0 && newMap != nil
 //@   loop 1 invariant a == a0 && (old(flag(a)) ==> flag(a))
 //@ func parser.Auditor.checkServiceMethods(a, oldMethods, newMethods, context)
+//@   locals method, rangeindex, oldMethod, rangeindex, ok, methodContext
 //@   requires a.logger != nil && tdwf(a.oldFrugal) && tdwf(a.newFrugal)
 //@   ensures old(flag(a)) ==> flag(a)
 //@   modifies ghost(errflag, a.logger), alloc
 //@   loop 0 invariant a == a0 && newMap != nil
 //@   loop 1 invariant a == a0 && (old(flag(a)) ==> flag(a))
 //@ func parser.Auditor.checkFields(a, oldFields, newFields, context)
+//@   locals oldMap, min, max, oldField, fieldContext, ok, oldFieldReq, ok, fieldContext
 //@   requires a.logger != nil && tdwf(a.oldFrugal) && tdwf(a.newFrugal)
 //@   ensures old(flag(a)) ==> flag(a)
 //@   modifies ghost(errflag, a.logger), alloc
@@ -236,6 +285,7 @@ package compiler
 //@   loop 1 invariant a == a0 && oldMap != nil && newMap != nil && (old(flag(a)) ==> flag(a))
 
 //@ func parser.makeFieldsMap(fields)
+//@   locals fieldsMap, field, rangeindex
 //@   ensures result != nil && fresh(result)
 //@   ensures forall(i, 0, len(fields), has(result, fields[i].ID))
 //@   modifies alloc
@@ -243,6 +293,7 @@ package compiler
 
 // The audit fails exactly when a file does not parse or an error was logged.
 //@ func parser.Auditor.Audit(a, oldFile, newFile)
+//@   locals err, oldFrugal
 //@   requires a.logger != nil
 //@   ensures ncalls("parser.ValidationLogger.ErrorsLogged") == 1 ==> (err != nil) == flag(a)
 //@   ensures ncalls("parser.ValidationLogger.ErrorsLogged") == 1 ==> ncalls("parser.ParseFrugal") == 2
